@@ -1,8 +1,75 @@
-(** C18 — property theorems only (proved in IO/CircuitProofs.v, IO/AigerProofs.v). *)
-From OxiVerif Require Import IO.Circuit IO.CircuitProofs.
+(** C18 — property theorems only (proved in IO/CircuitProofs.v, IO/CircuitSimpProofs.v). *)
+From OxiVerif Require Import IO.Circuit IO.CircuitProofs IO.CircuitSimpProofs.
 From Coq Require Import List.
 
-(** the run-time audit of the implementation's output decides the normal form *)
+(** ** The run-time audits decide the predicates of the property *)
+
+(** normal form: the five documented conditions, scope, topological order *)
 Theorem C18_nf_b_spec : forall c, nf_b c = true <-> NF c.
 Proof. exact nf_b_spec. Qed.
 Print Assumptions C18_nf_b_spec.
+
+(** truth-table comparison = equality of the denoted functions under EVERY assignment *)
+Theorem C18_equiv_b_spec : forall n c c' gm ls,
+  n_inputs c = n -> n_inputs c' = n ->
+  (equiv_b n c c' gm ls = true <->
+   forall (a : nat -> bool) l, In l ls -> eval c a l = eval c' a (apply_gate_map gm l)).
+Proof. exact equiv_b_spec. Qed.
+Print Assumptions C18_equiv_b_spec.
+
+Theorem C18_defined_b_spec : forall n c ls,
+  n_inputs c = n ->
+  (defined_b n c ls = true <->
+   forall (a : nat -> bool) l g, In l ls -> latom l = AGate g -> eval c a l <> None).
+Proof. exact defined_b_spec. Qed.
+Print Assumptions C18_defined_b_spec.
+
+Theorem C18_map_consistent_b_spec : forall c c' gm roots,
+  map_consistent_b c c' gm roots = true <-> MapConsistent c c' gm roots.
+Proof. exact map_consistent_b_spec. Qed.
+Print Assumptions C18_map_consistent_b_spec.
+
+(** ** The steps of the simplifier preserve the value of a gate *)
+
+Theorem C18_dedup_sem : forall (va : atom -> bool) k ins,
+  match dedup k ins with
+  | Some ins' => gate_fun k (map (lval va) ins') = gate_fun k (map (lval va) ins)
+  | None => k <> Xor /\ gate_fun k (map (lval va) ins) = absorb k
+  end.
+Proof. exact dedup_sem. Qed.
+Print Assumptions C18_dedup_sem.
+
+(** ** The model simplifier *)
+
+(** [simp_nf] *)
+Theorem C18_simp_nf : forall c roots c' gm, simplify c roots = Ok (c', gm) -> NF c'.
+Proof. exact simp_nf. Qed.
+Print Assumptions C18_simp_nf.
+
+(** [simp_equiv]: every literal over gates reachable from the roots (in particular
+    every root) has, under every assignment, the same value before and after through
+    the gate map, and gate literals do have a value *)
+Theorem C18_simp_equiv : forall c roots c' gm, simplify c roots = Ok (c', gm) ->
+  forall l, (forall g, latom l = AGate g -> Reach c roots g) ->
+  forall a, eval c a l = eval c' a (apply_gate_map gm l) /\
+            (forall g, latom l = AGate g -> eval c a l <> None).
+Proof. exact simp_equiv. Qed.
+Print Assumptions C18_simp_equiv.
+
+Theorem C18_simp_map_consistent : forall c roots c' gm, simplify c roots = Ok (c', gm) ->
+  MapConsistent c c' gm roots.
+Proof. exact simp_map_consistent. Qed.
+Print Assumptions C18_simp_map_consistent.
+
+(** an [Ok] answer is given only if no reachable gate lies on a cycle or mentions an unknown input *)
+Theorem C18_simp_ok_no_err_condition : forall c roots c' gm, simplify c roots = Ok (c', gm) ->
+  should_err_b c roots = false.
+Proof. exact simp_no_err_condition. Qed.
+Print Assumptions C18_simp_ok_no_err_condition.
+
+(** every [Ok] answer of the model passes exactly the audit that the driver runs on
+    the answers of the implementation *)
+Theorem C18_simp_ok_answer : forall c roots c' gm, simplify c roots = Ok (c', gm) ->
+  ok_answer_b c roots c' gm = true.
+Proof. exact simp_ok_answer. Qed.
+Print Assumptions C18_simp_ok_answer.
